@@ -2,6 +2,7 @@
 //! modelled algorithms (block and flex containers, leaves, display:none subtrees, absolutely positioned children) computed
 //! by the real TaffyTree and by the Lean evaluator with the real nine-slot cache model, compared bit for bit for every node.
 use crate::common::*;
+use crate::gridfmt;
 use crate::stylefmt::*;
 use crate::treegen::*;
 use taffy::prelude::*;
@@ -56,6 +57,67 @@ pub fn gen_block_flex_tree(r: &mut Rng) -> (TreeDesc, &'static str) {
     (t, label)
 }
 
+/// trees of block, flex and grid containers, leaves, display:none subtrees and absolutely positioned children
+pub fn gen_grid_block_tree(r: &mut Rng) -> TreeDesc {
+    let t = match r.below(3) {
+        0 => {
+            // the shared tree generator restricted to block and grid containers
+            let mut cfg = GenCfg::only(&[Display::Block, Display::Flex, Display::Grid, Display::Grid]);
+            cfg.max_nodes = 2 + r.below(14);
+            cfg.max_depth = 1 + r.below(4);
+            gen_tree(r, &cfg)
+        }
+        1 => crate::gridcorr::gen_grid_root(r),
+        _ => {
+            // a grid container from the GRID generator below a block or grid parent
+            let c = crate::gridcorr::gen_grid_root(r);
+            let mut cfg = GenCfg::only(&[Display::Block, Display::Flex, Display::Grid]);
+            cfg.max_nodes = 3;
+            cfg.max_depth = 1;
+            let mut p = gen_tree(r, &cfg);
+            p.ctx = None;
+            if p.style.display == Display::None {
+                p.style.display = Display::Block;
+            }
+            let k = r.below(p.children.len() + 1);
+            p.children.insert(k, c);
+            p
+        }
+    };
+    t
+}
+
+/// preorder: `<46 style tokens> <flow> <columns template> <rows template> <auto columns> <auto rows>
+/// <row.start> <row.end> <column.start> <column.end> <ctx> <nchildren>` per node
+pub fn gline(t: &TreeDesc) -> String {
+    let mut s = String::new();
+    gline_into(t, &mut s);
+    s
+}
+fn gline_into(t: &TreeDesc, s: &mut String) {
+    if !s.is_empty() {
+        s.push(' ');
+    }
+    let st = &t.style;
+    s.push_str(&gridfmt::grid_container_line(st));
+    s.push_str(&format!(
+        " {} {} {} {} ",
+        gridfmt::placement_tok(st.grid_row.start),
+        gridfmt::placement_tok(st.grid_row.end),
+        gridfmt::placement_tok(st.grid_column.start),
+        gridfmt::placement_tok(st.grid_column.end)
+    ));
+    match t.ctx {
+        None => s.push('-'),
+        Some(Ctx::Fixed(w, h)) => s.push_str(&format!("f:{}:{}", hx(w), hx(h))),
+        Some(Ctx::Wrap(w, h)) => s.push_str(&format!("w:{}:{}", hx(w), hx(h))),
+    }
+    s.push_str(&format!(" {}", t.children.len()));
+    for c in &t.children {
+        gline_into(c, s);
+    }
+}
+
 pub fn run(cfg: &Cfg, out: &mut Out) -> String {
     let n = cfg.n(3000, 200_000);
     for idx in 0..n {
@@ -63,11 +125,17 @@ pub fn run(cfg: &Cfg, out: &mut Out) -> String {
             continue;
         }
         let mut r = Rng::for_case(cfg.seed, idx);
-        let (t, label) = gen_block_flex_tree(&mut r);
+        // every third case: a tree that also has grid containers (verb `evalg`, tree format with the grid fields)
+        let with_grid = idx % 3 == 2;
+        let (t, label) = if with_grid { (gen_grid_block_tree(&mut r), "gridtree") } else { gen_block_flex_tree(&mut r) };
         let avail = gen_available(&mut r);
         out.begin_case(idx, label);
         out.count(&format!("kind:{label}"));
-        let req = format!("eval {} {} {}", av(avail.width), av(avail.height), t.line());
+        let req = if with_grid {
+            format!("evalg {} {} {}", av(avail.width), av(avail.height), gline(&t))
+        } else {
+            format!("eval {} {} {}", av(avail.width), av(avail.height), t.line())
+        };
         match layout_fresh(&t, avail, false) {
             Ok((tree, root)) => {
                 let ls = all_layouts(&tree, root, true);
@@ -84,6 +152,9 @@ pub fn run(cfg: &Cfg, out: &mut Out) -> String {
                 }
                 if v.iter().any(|n| n.style.display == Display::Block && !n.children.is_empty()) {
                     out.count("has:block-container");
+                }
+                if v.iter().any(|n| n.style.display == Display::Grid && !n.children.is_empty()) {
+                    out.count("has:grid-container");
                 }
                 if v.iter().any(|n| n.style.display == Display::None) {
                     out.count("has:hidden");
